@@ -3,6 +3,7 @@
  *
  * stdin:  records  { u8 flags; u8 codelen; u8 code[16]; u32 regs[8] (eax ecx edx ebx esp ebp esi edi);
  *                    u32 eflags; u8 hot[HOT]; [if flags&1: u8 mm[8][8]; u8 xmm[8][16]] }
+ *         flags&2: the hot bytes live at LOW_ADDR+HOT_OFF (reachable with 16-bit addressing) instead of DATA_ADDR+HOT_OFF
  * stdout: records  { u32 status (0 = stepped, else signal number, 0xffff = tracer failure);
  *                    u32 regs[8]; u32 eip; u32 eflags; u8 hot[HOT]; [if flags&1: mm, xmm] }
  */
@@ -23,6 +24,8 @@
 #define HOT_OFF   0x0e00UL
 #define HOT       1024
 #define CODE_ADDR 0x30000000UL
+#define LOW_ADDR  0x8000UL
+#define TOP_HOT   0xfc00UL      /* flags&4: the hot bytes are the last 1024 bytes of the first 64K */
 
 static pid_t child;
 
@@ -73,7 +76,9 @@ int main(int argc, char **argv) {
         memcpy(codebuf, code, 16); memcpy(codebuf + 16, nops, 16);
         if (codelen > 16) codelen = 16;
         memset(codebuf + codelen, 0x90, 32 - codelen);
-        if (!put_mem(CODE_ADDR, codebuf, 32) || !put_mem(DATA_ADDR + HOT_OFF, hot, HOT)) status = 0xffff;
+        unsigned long hotbase = (flags & 4) ? TOP_HOT : ((flags & 2) ? LOW_ADDR : DATA_ADDR) + HOT_OFF;
+        if (!put_mem(CODE_ADDR, codebuf, 32)) status = 0xffff;
+        else if (!put_mem(hotbase, hot, HOT)) status = (flags & 6) ? 0xfffd : 0xffff;      /* 0xfffd: no low mapping on this host */
         r = base;
         r.rax = regs[0]; r.rcx = regs[1]; r.rdx = regs[2]; r.rbx = regs[3];
         r.rsp = regs[4]; r.rbp = regs[5]; r.rsi = regs[6]; r.rdi = regs[7];
@@ -108,7 +113,7 @@ int main(int argc, char **argv) {
         out[5] = r.rsp; out[6] = r.rbp; out[7] = r.rsi; out[8] = r.rdi;
         out[9] = r.rip; out[10] = r.eflags;
         wr(out, sizeof out);
-        if (status == 0xfffe || !get_mem(DATA_ADDR + HOT_OFF, hot, HOT)) memset(hot, 0, HOT);
+        if (status == 0xfffe || !get_mem(hotbase, hot, HOT)) memset(hot, 0, HOT);
         wr(hot, HOT);
         if (flags & 1) {
             memset(&fp, 0, sizeof fp);
